@@ -31,7 +31,7 @@ echo "|---|---|---|---|"
 case "$WHAT" in
     reverts)
         for c in $(git -C /repo log --format=%h --grep='^fix:' ); do
-            row "revert-$c" "revert:$c" $ALL
+            row "revert-$c" "revert:$c" ${REVERT_CHECKS:-$ALL}
         done ;;
     hand)
         for f in "$HERE"/seeded/hand/*.diff; do
